@@ -60,6 +60,7 @@ package decoration
 //@   loop#1 invariant [segments-so-far] forall k int :: {e.colWidths[k]} 0 <= k && k <= rangeindex ==> fields[1 + 2 * k] == repeat(horiz, 2 + e.colWidths[k])
 //@   loop#1 invariant [crossings-so-far] forall m int :: {fields[m]} 2 <= m && m < len(fields) && m % 2 == 0 ==> fields[m] == cross
 //@   loop#1 decreases len(e.colWidths) - rangeindex
+//@   call Join#1 before assert [rule-pieces-joined-without-gaps] arg1 == "" && arg0 === fields @C03
 //@   call Join#1 before assert [rule-segment-spans-column-plus-one-space-either-side] forall k int :: {e.colWidths[k]} 0 <= k && k < len(e.colWidths) ==> fields[1 + 2 * k] == repeat(horiz, 2 + e.colWidths[k]) @C03
 //@   call Join#1 before assert [rule-corners-and-crossings] fields[0] == left && len(fields) == 2 * len(e.colWidths) + (len(e.colWidths) > 0 ? 2 : 3) && fields[len(fields) - 1] == e.eol && (len(e.colWidths) > 0 ==> fields[len(fields) - 2] == right) && (forall m int :: {fields[m]} 2 <= m && m < 2 * len(e.colWidths) && m % 2 == 0 ==> fields[m] == cross) @C03
 
@@ -79,6 +80,7 @@ package decoration
 //@   loop#1 invariant [slots-so-far] forall k int :: {cellStrs[k]} 0 <= k && k <= rangeindex ==> fields[slot(ds, k)] == aligned(cellStrs[k].S, cellStrs[k].W, e.colWidths[k], colAligns[k])
 //@   loop#1 invariant ds.Left != "" ==> fields[0] == ds.Left
 //@   loop#1 decreases len(e.colWidths) - rangeindex
+//@   call Join#1 before assert [one-space-either-side-of-every-slot] arg1 == " " && arg0 === fields @C03,C04
 //@   call Join#1 before assert [every-slot-is-its-cell-line-aligned] forall k int :: {cellStrs[k]} 0 <= k && k < len(e.colWidths) ==> slot(ds, k) < len(fields) && fields[slot(ds, k)] == aligned(cellStrs[k].S, cellStrs[k].W, e.colWidths[k], colAligns[k]) @C04
 //@   call Join#1 before assert [outer-dividers-in-place] len(e.colWidths) >= 1 ==> (ds.Left != "" ==> fields[0] == ds.Left) && (ds.Right != "" ==> fields[len(fields) - 1] == ds.Right) @C03
 //@   call Join#1 before assert [field-count] len(e.colWidths) >= 1 ==> len(fields) == (ds.Left != "" ? 1 : 0) + len(e.colWidths) + (ds.Inner != "" ? len(e.colWidths) - 1 : 0) + (ds.Right != "" ? 1 : 0) @C03
